@@ -33,7 +33,7 @@ long timer_set_relative (callback_f cb, void *arg, long msec) {
     pend_cb = cb; pend_arg = arg; pend_msec = msec; pend_set = 1; return 1;
 }
 
-#define MAXK 64
+#define MAXK 4096
 static struct munge_cred creds[MAXK];
 static struct m_msg msgs[MAXK];
 static int nkeys;
